@@ -273,7 +273,7 @@ COMMON_RULE = ("model = vertex count + Python set of edges; after every step eve
 
 SUBCHECKS = [
     SubCheck('simple', run_case, strategy=_strategy('Graph'), enumerate_cases=_enumerate('Graph'),
-             quick=4000, thorough=36000,
+             quick=4000, thorough=16000,
              rule="Graph(n), n=0..6, histories of 0..50 (thorough 0..200) calls of add_edge / remove_edge / "
                   "add_edges_from (half of them with a forbidden pair in the middle, list or iterator) / "
                   "update_vertex_number(-1..n+3, capped at 12), arguments legal, already present (either "
@@ -287,7 +287,7 @@ SUBCHECKS = [
                               'batch-refused', 'batch-bad-in-the-middle', 'initial-size-0',
                               'networkx-relabelled', '5-insertions', 'bad-initial-size']),
     SubCheck('directed', run_case, strategy=_strategy('DirectedGraph'), enumerate_cases=_enumerate('DirectedGraph'),
-             quick=4000, thorough=36000,
+             quick=4000, thorough=16000,
              rule="DirectedGraph(n), n=0..6, histories of 0..50 (thorough 0..200) calls of add_edge / "
                   "add_edges_from with forward edges, back edges, loops, duplicates and out-of-range arguments; "
                   "plus every history of length <=2 (thorough <=3) over 28 operations from n=0..3. " + COMMON_RULE +
@@ -298,7 +298,7 @@ SUBCHECKS = [
                               'batch-bad-in-the-middle', 'initial-size-0', 'networkx-relabelled',
                               '5-insertions', 'refused-zero', 'bad-initial-size']),
     SubCheck('bipartite', run_case, strategy=_strategy('BipartiteGraph'), enumerate_cases=_enumerate('BipartiteGraph'),
-             quick=4000, thorough=36000,
+             quick=4000, thorough=16000,
              rule="BipartiteGraph(L,R), L,R=0..5, histories of 0..50 (thorough 0..200) calls of add_edge / "
                   "add_edges_from, left argument in -1..L+2 and right argument in -1..R+2; plus every history of "
                   "length <=2 (thorough <=3) over 18 operations from L,R in 0..2. " + COMMON_RULE +
